@@ -411,6 +411,9 @@ class Check:
     def finish(self):
         known = load_known(self.pid)
         os.makedirs(os.path.join(EVID, "replay"), exist_ok=True)
+        for f in os.listdir(os.path.join(EVID, "replay")):       # no stale replays from earlier runs
+            if re.fullmatch(re.escape(self.pid) + r"-\d+\.json", f):
+                os.remove(os.path.join(EVID, "replay", f))
         known_hit = {}
         real = []
         for v in self.violations:
